@@ -1236,10 +1236,15 @@ impl ManageConnection for ServerPool {
 
     /// Synchronously determine if the connection is no longer usable, if possible.
     fn has_broken(&self, conn: &mut Self::Connection) -> bool {
-        // A connection that is still inside a transaction, in COPY mode or has an unread reply
-        // pending was dropped without `checkin_cleanup` (an early return or a panic in the client
-        // task): it must not be handed to the next client.
-        conn.is_bad() || conn.in_transaction() || conn.in_copy_mode() || conn.is_data_available()
+        // A connection that is still inside a transaction, in COPY mode, has an unread reply
+        // pending or carries session state that was not reset was dropped without
+        // `checkin_cleanup` (an early return or a panic in the client task): it must not be
+        // handed to the next client.
+        conn.is_bad()
+            || conn.in_transaction()
+            || conn.in_copy_mode()
+            || conn.is_data_available()
+            || conn.needs_cleanup()
     }
 }
 
